@@ -77,7 +77,8 @@ def _driver(requests, env):
     if not requests:
         return []
     os.makedirs(os.path.join(VERIF, "replays"), exist_ok=True)
-    path = os.path.join(VERIF, "replays", ".batch-%d-%d.json" % (os.getpid(), int(time.time() * 1000) % 100000))
+    import threading
+    path = os.path.join(VERIF, "replays", ".batch-%d-%d-%d.json" % (os.getpid(), threading.get_ident() % 100000, int(time.time() * 1000000) % 10000000))
     with open(path, "w") as f:
         json.dump(requests, f)
     e = dict(os.environ)
@@ -212,17 +213,26 @@ def main(argv=None):
     known_hits = {}
     n_witness_ok = 0
     # replays + witnesses share subprocesses per env
-    for ekey in sorted(set(list(replay_reqs) + list(witness_reqs))):
+    ekeys = sorted(set(list(replay_reqs) + list(witness_reqs)))
+
+    def _run_env(ekey):
         env = json.loads(ekey)
-        rr = replay_reqs.get(ekey, [])
-        ww = witness_reqs.get(ekey, [])
-        # crashes kill the whole batch: run replays one process each if the first batch crashed
-        reqs = [x[0] for x in rr] + [x[0] for x in ww]
+        reqs = [x[0] for x in replay_reqs.get(ekey, [])] + [x[0] for x in witness_reqs.get(ekey, [])]
         outs = _driver(reqs, env)
+        # a crash kills the whole batch: rerun one process per request to attribute it
         if any(o.get("crashed") for o in outs) and len(reqs) > 1:
             outs = []
             for q in reqs:
                 outs.extend(_driver([q], env))
+        return outs
+    from concurrent.futures import ThreadPoolExecutor
+    with ThreadPoolExecutor(max_workers=8) as tp:
+        all_outs = dict(zip(ekeys, tp.map(_run_env, ekeys)))
+    for ekey in ekeys:
+        env = json.loads(ekey)
+        rr = replay_reqs.get(ekey, [])
+        ww = witness_reqs.get(ekey, [])
+        outs = all_outs[ekey]
         for (req, o, c), out in zip(rr, outs[:len(rr)]):
             confirmed = bool(out.get("violation")) or bool(out.get("crashed"))
             rec = {"property": pid, "case": c.name, "assertion": o["name"], "kind": o["kind"], "inputs": o["inputs"],
